@@ -22,6 +22,8 @@ func runC13(c *Ctx) {
 	L.Floor("alphabet-wildcard", 2, "ALL_AMINO and ALL_NUCLE in Deduplicate")
 	c.checkDeduplicate()
 	c.checkCompress()
+	c.checkStaleState("stale-iteration-state", "align")
+	c.L.Floor("stale-iteration-state", 2, "two listed state machines of package align plus the scope line")
 }
 
 // tableStringValues: v is a lookup in a package-level map of package align whose initialiser is a
